@@ -121,3 +121,43 @@ def run_repo_tests_under_monitors(M, deciding):
                         {"kind": "w0", "test": f["test"]})
         else:
             M.count("advisory.W0." + f["monitor"])
+
+
+class ReusedEnv:
+    """One Parser (with its AstBuilder and IdGenerator) and one explicitly passed TokenMatcher reused
+    for all cases of a shard, with state-perturbing documents (vf/perturb.py: rejected documents, dialect
+    switches, documents ending inside an indented doc string, parses abandoned while look-ahead tokens are
+    buffered, in collecting and stop-at-first-error mode) parsed in between.  Whatever an earlier parse left
+    behind must not show in the next one — under any property."""
+
+    def __init__(self, r, default="en", p_perturb=0.5):
+        from gherkin.parser import Parser
+        from gherkin.ast_builder import AstBuilder
+        from gherkin.token_matcher import TokenMatcher
+        from gherkin.stream.id_generator import IdGenerator
+        from gherkin.errors import ParserError
+        self.r = r
+        self.idgen = IdGenerator()
+        self.parser = Parser(AstBuilder(self.idgen))
+        self.matcher = TokenMatcher(default)
+        self.err = ParserError
+        self.p = p_perturb
+
+    def perturb(self, M):
+        from ..perturb import POOL, NAMES
+        if self.r.random() < self.p:
+            name = self.r.choice(NAMES)
+            self.parser.stop_at_first_error = self.r.random() < 0.4
+            try:
+                self.parser.parse(POOL[name], self.matcher)
+            except self.err:
+                pass
+            except Exception:
+                M.count("advisory.perturbing_document_raised_other_exception")
+            M.hist("reuse.predecessor", name)
+            M.count("reuse.perturbing_parses")
+
+    def parse(self, text, M, stop=False):
+        self.perturb(M)
+        M.count("parses_on_reused_objects")
+        return observe.parse_observed(text, stop=stop, parser=self.parser, matcher=self.matcher, idgen=self.idgen)
